@@ -169,14 +169,28 @@ def run_blocking(schema, req, world, executor_cls=None, extra=None, log=None):
     return o
 
 
+_DERIVED = []
+
+
+def _derived_runtime():
+    if not _DERIVED:
+        from py_gql.execution.runtime import BlockingRuntime, ThreadPoolRuntime
+        _DERIVED.append(type("PooledBlockingRuntime", (ThreadPoolRuntime, BlockingRuntime), {}))
+    return _DERIVED[0]
+
+
 def run_threadpool(schema, req, world, schedule, extra=None, log=None):
     from py_gql import process_graphql_query
     from py_gql.execution.runtime import ThreadPoolRuntime
     o = Outcome(log)
     world.timeline = o.log
-    rt = ThreadPoolRuntime(max_workers=1)
-    rt._inner.shutdown(wait=False)
+    # every other schedule runs on a user-defined runtime instead of the stock one: a class that specialises BlockingRuntime
+    # into a deferring runtime (here by taking every method from ThreadPoolRuntime).  What a runtime does is what its methods
+    # do, not what it derives from.
     ch = Chooser(schedule, o)
+    cls = _derived_runtime() if (sum(ch.schedule) + len(ch.eager)) % 2 else ThreadPoolRuntime
+    rt = cls(max_workers=1)
+    rt._inner.shutdown(wait=False)
     pool = ManualPool(o, ch)
     rt._inner = pool
     try:
